@@ -4,7 +4,7 @@ import json, os, sys
 
 VERIF = os.path.dirname(os.path.dirname(os.path.abspath(__file__)))
 
-HOOK_COMMITS = ["e186cbc", "7a2ce2c", "5e37cf0", "1194d96"]
+HOOK_COMMITS = ["e186cbc", "7a2ce2c", "5e37cf0", "1194d96", "4e8a38b"]
 
 # id -> (spec modules, technique, level text, level note, design ref)
 P = {
